@@ -20,6 +20,7 @@ registration; moreover no `categories` entry of that block re-assigns the countr
 import Rs1090.Proofs.TailJa
 import Rs1090.Proofs.TailInj
 import Rs1090.Proofs.TailInfo
+import Rs1090.Gen.HiddenState
 namespace Rs1090.Props.C14
 open Rs1090 Rs1090.Model.Tail Rs1090.Gen.Tail Rs1090.Proofs.Tail
 
@@ -207,5 +208,20 @@ example : tailStr 0x3949f9 = .ok (some ['F', '-', 'G', 'S', 'P', 'Z']) := by dec
 /-- the hypotheses of `country_ok` are satisfiable, and its conclusion is about a real block -/
 example : (blockOf 0x3949f9).map (·.country) = some "France" := by decide +kernel
 example : tailStr 0 = .ok none := by decide +kernel
+
+/-! ### hidden state (the code side of "is a function of its input") -/
+
+/-- **No hidden state besides the reviewed one** in the files this property is anchored in.  `tail` and `aircraft_information` are functions of the address; the sites are the three lazily built READ-ONLY tables (their construction from literals / patterns.json is what `Gen.Tail` regenerates; it depends on no input).
+    The translator lists on every run every construct through which a Rust function can carry state from one
+    call to the next without it showing in its signature (`static`, `thread_local!`, `lazy_static!`,
+    `OnceCell`/`OnceLock`/`Lazy`, `Cell`/`RefCell`/`UnsafeCell`, `Mutex`/`RwLock`, atomics, `unsafe`; whole
+    files, gen/extractors/hidden_state.py); a memo, cache or counter added there breaks this obligation by
+    name, whatever inputs the harness happens to generate. -/
+theorem hidden_state_reviewed :
+    Gen.HiddenState.sitesIn ["data/tail.rs", "data/patterns.rs"] =
+      [("data/patterns.rs", "pub static PATTERNS: Lazy<Patterns> ="),
+       ("data/patterns.rs", "Lazy::new(|| serde_json::from_str(PATTERNS_JSON).unwrap());"),
+       ("data/tail.rs", "static NUMERIC_MAPPINGS: Lazy<Vec<NumericMapping>> = Lazy::new(|| {"),
+       ("data/tail.rs", "static STRIDE_MAPPINGS: Lazy<Vec<StrideMapping>> = Lazy::new(|| {")] := by decide
 
 end Rs1090.Props.C14
